@@ -13,7 +13,7 @@
 From Coq Require Import List NArith ZArith Bool Lia ZifyBool ZifyNat ZifyN Arith.
 From Mila Require Import Lib.Bytes Lib.BytesExtra Lib.Machine Model.BinArchive Model.BinStreams Model.BinFormat
   Proofs.AMapLemmas Proofs.BinAccess Proofs.BinAccess2 Proofs.BinTotal Proofs.TextArcTotal Proofs.RecsCells.
-From Mila Require Model.ASet Model.AssetBin Proofs.ASetWrite Proofs.AssetBinRoundTrip.
+From Mila Require Model.ASet Model.AssetBin Proofs.ASetWrite Proofs.ASetRoundTrip Proofs.AssetBinRoundTrip.
 Import ListNotations.
 Local Open Scope N_scope.
 Ltac Zify.zify_post_hook ::= Z.div_mod_to_equations.
@@ -194,6 +194,11 @@ Theorem reserialize_no_panic f v m k : parse f = Ok v -> serialize m v <> Panic 
 Proof. intros H. apply serialize_wf_no_panic. exact (parse_wf f v H). Qed.
 Theorem from_archive_reserialize_no_panic a v m k : from_archive a = Ok v -> serialize m v <> Panic k.
 Proof. intros H. apply serialize_wf_no_panic. exact (from_archive_wf a v H). Qed.
+(* whatever the reader returns - from ANY archive, also a foreign or malformed one - is a fixed point of write -> read *)
+Theorem reader_output_round_trips a v : from_archive a = Ok v -> exists a', build v = Ok a' /\ from_archive a' = Ok v.
+Proof.
+  intros H. destruct (Proofs.ASetRoundTrip.round_trip_archive v (from_archive_wf a v H)) as (a' & B & R & _). exists a'. auto.
+Qed.
 End ASetT.
 
 (* ================================================================== asset binaries *)
